@@ -30,7 +30,11 @@ for p in props:
         "engine": "mzverif",
         "level_claimed": {
             "category": mod.LEVEL,
-            "text": mod.LEVEL_TEXT if hasattr(mod, "LEVEL_TEXT") else mod.TECHNIQUE,
+            "text": (mod.LEVEL_TEXT if hasattr(mod, "LEVEL_TEXT") else (
+                ("fault enumeration" if mod.LEVEL == "fault_enumeration" else "exploration") + " by generated-input search against an explicit oracle: " + mod.TECHNIQUE
+                + ". Assurance: the property held on every explored case; sub-domains flagged exhaustive in the evidence were enumerated completely; "
+                "no claim is made outside the explored domain. This is the level the technique family can give for a for-all statement over an unbounded input space."
+            )),
             "design_ref": f"DESIGN.md section 7, {pid}",
         },
         "level_note": "; ".join(mod.ASSUMPTIONS),
